@@ -371,6 +371,12 @@ def run_update_family(ctx, n_quick, n_thorough):
     behs = _export(ctx, 'Update', 'MC_Update.cfg', [], sample=(6000 if thorough else 700), rng=rng)
     out = core.pool_map(d.replay_update, list(enumerate(behs)))
     recs = [r for o in out for r in o]
+    # ... and the behaviours of Chain.tla (three levels, two rounds)
+    if thorough or ctx.pid in ('C03', 'C12'):
+        cbehs = _export(ctx, 'Chain', 'MC_Chain.cfg', [], sample=(4000 if thorough else 300), rng=rng)
+        out = core.pool_map(d.chain_replay, list(enumerate(cbehs)))
+        recs += [r for o in out for r in o]
+        ctx.extra['replayed_chain_behaviours'] = len(cbehs)
     nd = 0
     for r in recs:
         for x in r.pop('drift', []):
